@@ -59,7 +59,7 @@ Definition rk_check (oc : bytes -> bool) (k : rk) (v : bytes) : bool :=
   match k with
   | RKPoint => oc v
   | RKNonce => oc (firstn 33 v) && oc (skipn 33 v)
-  | RKSigNonce => oc (firstn 33 (skipn 32 v)) && oc (skipn 65 v)
+  | RKSigNonce => let t := skipn 32 v in oc (firstn 33 t) && oc (skipn 33 t)
   | _ => true
   end.
 
@@ -251,21 +251,15 @@ Section Msg.
 
   (* side conditions on the message description (computed for every generated
      message in Gen/GenWire.v) *)
-  Fixpoint distinct_types (ks : list krec) : bool :=
-    match ks with
-    | [] => true
-    | k :: r => negb (existsb (fun k' => kr_type k' =? kr_type k) r) && distinct_types r
-    end.
-
   Definition nonterminal (L : layout) : bool := forallb (fun k => negb (is_terminal k)) L.
 
   Definition tm_ok (M : tlvmsg) : bool :=
     nonterminal (tm_pre M) &&
     (match tm_cond M with Some (_, _, Lc) => nonterminal Lc | None => true end) &&
-    forallb (fun k => (kr_type k <? two64) &&
-                      (if kr_always k then match kr_kind k with RKVar => true | _ => false end
-                       else true)) (tm_known M) &&
-    distinct_types (tm_known M).
+    (* unconditionally produced records are var-bytes records (their empty value is valid) *)
+    forallb (fun t => (t <? two64) &&
+                      match lookup_rk (tm_known M) t with Some RKVar => true | _ => false end)
+            (always_types (tm_known M)).
 
   (* bytes added by the unconditionally produced records *)
   Definition always_overhead (M : tlvmsg) : nat :=
